@@ -26,7 +26,7 @@ R1 converters that put the result variable of a mapped (possibly shared) functio
 """
 import re
 import hashlib
-from ..cfg import Facts, kids, strip, walk, cv, render, call_args, call_object, switch_sections
+from ..cfg import norm_facts as _norm_facts, Facts, kids, strip, walk, cv, render, call_args, call_object, switch_sections
 from ..cfg import short_loc as _short_loc
 from ..facts import export, AnalysisBroken
 
@@ -1357,7 +1357,8 @@ P2_EXCEPTIONS = [
      "the bound of the body equals the right-hand side: the inequality holds for every point of the domain"),
 ]
 P2_EXCEPTIONS += [
-    (r"BasicFuncConstrCvt<.*>::Convert<", lambda c: any("HasNegative()" in t and not p for t, p in c) and any("HasPositive()" in t and not p for t, p in c),
+    (r"BasicFuncConstrCvt<.*>::Convert<", lambda c: (any("HasNegative()" in t and not p for t, p in c) or any(".lb(" in t and "<" in t and not p for t, p in c)) and
+        (any("HasPositive()" in t and not p for t, p in c) or any(".ub(" in t and (">" in t or "<" in t) and not p for t, p in c)),
      "neither direction needed: the context lacks it or the bound of the result already implies it (C01.D1 checks the guards)"),
     (r"RangeConstraintConverter<.*>::ConvertWithRhs", lambda c: _entails(c, {"rr[1]": False, "rr[2]": False}),
      "both bounds infinite: the range constraint is free"),
@@ -1720,7 +1721,8 @@ def rule_H2(rep, repo):
         a = strip(call_args(sr[0])[0])
         ok = a["k"] == "BinaryOperator" and a.get("op") == "/" and nt(render(kids(a)[0])) == "con.rhs()" and nt(render(kids(a)[1])) == "coef" and \
             [nt(render(x)) for x in call_args(sc[0])] in (["0", "1"], ["0", "1.0"]) and \
-            ("1==body.size()", True) in nfacts(g, sr[0])
+            (("1==body.size()", True) in nfacts(g, sr[0]) or
+             any(pol and t_.startswith("1==") and (t_.endswith("body.size()") or t_.endswith("GetBody().size()")) for t_, pol in _norm_facts(g, sr[0], canon=True)))
         inits = {v["name"]: nt(render(kids(v)[0])) for v in g.walk() if v["k"] == "VarDecl" and kids(v)}
         cv_ = [v for v in g.walk() if v["k"] == "VarDecl" and v.get("name") == "coef"]
         ok = ok and inits.get("coef") == "body.coef(0)" and len(cv_) == 1 and "&" not in (cv_[0].get("ct") or "")
